@@ -629,6 +629,74 @@ def r03l(ctx):
                    f"ODF_EXTENSIONS and ODF_MIMETYPES disagree on {diff[:3]}: a type the library writes (or derives from a template) is unknown to the readers, or maps to another extension")
 
 
+def r03m(ctx):
+    """What is read from the file on demand stays in the part table.
+
+    A container opened by path reads its members lazily; `Container.save` pre-loads what was never read by calling `get_part()` on every
+    member *and throwing the result away* — it relies on get_part leaving the bytes in the part table, because the writers write the
+    table and nothing else.  A loader that hands the bytes back without filing them (large members "not worth caching", a filter on the
+    content) makes exactly those members vanish from the next save, while every read in memory still answers.  Rule: in get_part and the
+    single-member loaders it calls, every value that is returned was read from the table, or comes from a disk read after which a store of
+    that value into the table lies on every path to the return.
+    """
+    from ..paths import reaching_defs
+    repo = ctx.repo
+    ctx.rule("R03m", "a member read from disk on demand is filed in the part table on every path that returns it", floor=3)
+    c = repo.cls("Container")
+
+    def is_table(e):
+        return isinstance(e, ast.Attribute) and e.attr.endswith("__parts") and isinstance(e.value, ast.Name) and e.value.id == "self"
+
+    def from_table(e):
+        return isinstance(e, ast.Subscript) and is_table(e.value)
+
+    n = 0
+    loaders = ["get_part", "_get_zip_part"]
+    for name in loaders:
+        f = c.lookup(name)
+        if f is None:
+            raise AnalysisError(f"anchor function vanished: Container.{name}")
+        cfg = cfg_of(f)
+        byid = {nd.id: nd for nd in cfg.nodes}
+        stores = [a for a in walk_no_nested(f.node) if isinstance(a, ast.Assign) and len(a.targets) == 1 and isinstance(a.targets[0], ast.Subscript) and is_table(a.targets[0].value)]
+        for r in [x for x in walk_no_nested(f.node) if isinstance(x, ast.Return) and x.value is not None]:
+            v = r.value
+            if isinstance(v, ast.Constant) and v.value is None:
+                continue
+            n += 1
+            bad = None
+            if from_table(v):
+                pass
+            elif isinstance(v, ast.Call) and is_self_attr(v.func) and call_name(v) in loaders:
+                pass  # the callee is held to the same rule
+            elif isinstance(v, ast.Name):
+                rn = node_of(cfg, r)
+                for d in reaching_defs(cfg, v.id).get(rn.id, frozenset()):
+                    dn = byid[d]
+                    st = dn.stmt
+                    if dn is cfg.entry:
+                        bad = (v.id, None, "it is the argument")
+                        continue
+                    val = getattr(st, "value", None)
+                    if isinstance(st, ast.Assign) and from_table(val):
+                        continue
+                    if isinstance(st, ast.Assign) and isinstance(val, ast.Constant) and val.value is None:
+                        continue
+                    filing = [node_of(cfg, a) for a in stores if isinstance(a.value, ast.Name) and a.value.id == v.id]
+                    filing = [x for x in filing if x is not None]
+                    if not filing or cfg.path_avoiding(dn, rn, filing, follow_exc=False) is not None:
+                        bad = (v.id, st, "a path from there to the return files nothing")
+            else:
+                bad = (norm(v, 30), None, "its origin cannot be read from the source")
+            ctx.instance("R03m", f"{f.file}:{f.ident}", f"{norm(r, 40)}: returned value is in the table", ok=bad is None, nontrivial=True, line=r.lineno)
+            if bad:
+                ctx.report("R03m", f, bad[1] or r, f"{norm(r, 30)} unfiled `{bad[0]}`",
+                           f"{f.ident} returns `{bad[0]}`" + (f", read by `{norm(bad[1], 50)}`" if bad[1] is not None else "") + f": {bad[2]} — Container.save pre-loads unread "
+                           f"members by calling get_part and discarding the result, so a member that is returned without being filed in the part table is missing from the saved file")
+    if n < 3:
+        raise AnalysisError(f"R03m: only {n} return(s) of part data found")
+
+
 def run(ctx):
     r03a(ctx)
     r03b(ctx)
@@ -641,6 +709,7 @@ def run(ctx):
     r03i(ctx)
     r03j(ctx)
     r03l(ctx)
+    r03m(ctx)
     # "reopen" is half of the property: a parser that drops blank text, comments or PIs loses content on the way back (rule shared with C11)
     from .c11 import r11de, r11h
     r11h(ctx)
@@ -653,6 +722,12 @@ from ..selftest import Seed, unparse_seed  # noqa: E402
 _CT = "src/odfdo/container.py"
 _DOC = "src/odfdo/document.py"
 SEEDS = [
+    Seed("the zip loader does not keep large members", "fault", _CT,
+         "                self.__parts[upath] = zf.read(name)\n                return self.__parts[upath]",
+         "                data = zf.read(name)\n                if len(data) <= 1 << 24:\n                    self.__parts[upath] = data\n                return data", "R03m"),
+    Seed("the zip loader names the bytes before filing them", "neutral", _CT,
+         "                self.__parts[upath] = zf.read(name)\n                return self.__parts[upath]",
+         "                data = zf.read(name)\n                self.__parts[upath] = data\n                return data"),
     Seed("get_part reloads every folder part whose timestamp is not the recorded one, recorded or not", "fault", _CT,
          "            if self.__packaging == FOLDER and path in self.__parts_ts:\n                # only a part that was loaded from the folder can be stale\n                cache_ts = self.__parts_ts[path]",
          "            if self.__packaging == FOLDER:\n                cache_ts = self.__parts_ts.get(path, -1)", "R03i"),
